@@ -111,9 +111,9 @@ def cases(tier, rng, ifaces):
     gid = 0
     # 1. short streams, exhaustive compositions, small buffers
     shorts = [b'X\n', b'X;X\n', b'*IDN?\n', b'X\nX\n', b'FOO\nX\n', b'STR "a\nb"\n', b'BLK #12\n\n\n', b'SYST:A;BAR\n', b'X "\n', b'\n\nX\n', b'X\r\n',
-              b'BOOL ON\n', b'ARB?\n', b'XXXXXXXXX\n', b'SYST:A;STR "\n";BAR\n']
+              b'BOOL ON\n', b'ARB?\n', b'XXXXXXXXX\n', b'SYST:A;STR "\n";BAR\n', b'SYST:A;BLK #11\n;A\n', b'SYST:STR "x\ny";A;BAR\nBAR\n']
     for s in shorts:
-        for n in ([2, 3, 4, 5, 8, 16] if tier == 'quick' else [1, 2, 3, 4, 5, 6, 7, 8, 12, 16, 24]):
+        for n in ([2, 3, 4, 5, 8, 16, 32] if tier == 'quick' else [1, 2, 3, 4, 5, 6, 7, 8, 12, 16, 24, 32, 64]):
             gid += 1
             for sched in schedules(rng, s, n, tier, True):
                 out.append(Case(f'PROC echo {n} {hx(s)} {",".join(map(str, sched)) or "-"}', no_crash, {'group': gid, 'kind': 'PROC-exh'}))
